@@ -49,7 +49,16 @@ def build_harness(pid, race=False):
     if race:
         env["CGO_ENABLED"] = "1"
     t0 = time.time()
-    cmd = ["go", "build", "-tags", "verif"] + (["-race"] if race else []) + ["-o", out, "./cmd/vh"]
+    extra = []
+    alt = os.environ.get("VERIF_REPO")   # development aid only: build against another checkout (a scratch worktree with a
+    if alt:                              # seeded change) instead of /repo; the registered commands never set it
+        hm = os.path.join(VERIF, "harness")
+        modf = os.path.join(rundir(pid, "bin"), "alt.mod")
+        open(modf, "w").write(open(os.path.join(hm, "go.mod")).read().replace("=> /repo\n", "=> %s\n" % alt))
+        shutil.copy(os.path.join(hm, "go.sum"), modf[:-4] + ".sum")
+        extra = ["-modfile=" + modf]
+        log("building against %s instead of /repo" % alt)
+    cmd = ["go", "build", "-tags", "verif"] + extra + (["-race"] if race else []) + ["-o", out, "./cmd/vh"]
     p = subprocess.run(cmd, cwd=os.path.join(VERIF, "harness"), env=env, stdout=subprocess.PIPE, stderr=subprocess.STDOUT, text=True)
     if p.returncode != 0:
         sys.stdout.write(p.stdout[-6000:])
